@@ -27,6 +27,7 @@ type ev struct {
 	list       []int
 	val        []pair
 	env        bool
+	snap       *snap
 }
 
 type slot struct {
@@ -80,6 +81,8 @@ type Sim struct {
 	mu sync.Mutex
 
 	ids        map[uintptr]int
+	nodeOf     []interface{} // node id -> the pointer it was allocated for
+	dumpBroken bool
 	keep       []interface{}
 	nextID     int
 	harnessRes map[uintptr]bool
@@ -162,6 +165,7 @@ func (s *Sim) id(x interface{}) int {
 	s.nextID++
 	s.ids[p] = i
 	s.keep = append(s.keep, x)
+	s.nodeOf = append(s.nodeOf, x)
 	return i
 }
 
@@ -849,15 +853,16 @@ func (s *Sim) waitQuiet(base int, timeout time.Duration) bool {
 
 // Result of running one case.
 type Result struct {
-	Events   []ev
-	Fails    []failure
-	Outs     [][]pair // published value per rerunner (nil: none)
-	HasOut   []bool
-	Vers     []int
-	Computes int
-	Quiet    bool
-	NEvents  int
-	Kinds    map[string]int
+	Events     []ev
+	Fails      []failure
+	Outs       [][]pair // published value per rerunner (nil: none)
+	HasOut     []bool
+	Vers       []int
+	Computes   int
+	Quiet      bool
+	DumpBroken bool
+	NEvents    int
+	Kinds      map[string]int
 }
 
 // RunCase executes the case against the implementation and evaluates the oracle.
@@ -957,6 +962,9 @@ func RunCase(c *Case) (res *Result) {
 			}
 		}
 	}
+	if quiet {
+		s.dumpLocked()
+	}
 	res.Vers = make([]int, len(s.slots))
 	s.mu.Unlock()
 	// final phase: stop everything; every resource that was ever depended upon must then be cleaned exactly once
@@ -976,6 +984,7 @@ func RunCase(c *Case) (res *Result) {
 		s.fail("no-quiescence", "activity did not stop within 6s after stopping every rerunner")
 	}
 	if quiet && quiet2 {
+		s.dumpLocked()
 		for p, id := range s.ids {
 			if s.harnessRes[p] && s.used[id] && s.cleanups[id] != 1 {
 				s.fail("cleanup-not-exactly-once", fmt.Sprintf("resource node %d: cleanup ran %d times after everything stopped", id, s.cleanups[id]))
@@ -998,6 +1007,7 @@ func RunCase(c *Case) (res *Result) {
 	res.Events = s.events
 	res.Fails = append(res.Fails, s.fails...)
 	res.Quiet = quiet && quiet2
+	res.DumpBroken = s.dumpBroken
 	res.NEvents = len(s.events)
 	for _, e := range s.events {
 		res.Kinds[e.kind]++
